@@ -200,7 +200,8 @@ def expand_units(groups, probes, prop, tier, unit_pat):
     for g in groups.values():
         for u in g.units:
             props = u.get("props", "").split()
-            if prop != "all" and prop not in props:
+            reent = u.get("props-reent", "").split()
+            if prop != "all" and prop not in props and prop not in reent:
                 continue
             utier = u.get("tier", "quick")
             if utier == "disabled" and not unit_pat:
@@ -211,7 +212,11 @@ def expand_units(groups, probes, prop, tier, unit_pat):
                 for cfg in u.get("cfgs", "nr").split():
                     if tier == "quick" and cfg in u.get("thorough-cfgs", "").split():
                         continue
+                    if prop != "all" and prop not in props and cfg == "nr":
+                        continue
                     inst = dict(u)
+                    if cfg != "nr" and reent:
+                        inst["props"] = " ".join(props + reent)
                     inst["cfg"] = cfg
                     inst["uid"] = "%s@%s" % (u["id"], cfg)
                     out.append(inst)
@@ -409,7 +414,47 @@ def normalize_obligation(p, etags, enforce):
     return name
 
 
+def run_static_fact(u, scratch, probes):
+    """Supporting static fact (not a CBMC proof): the emitted scanner, compiled by
+    gcc, defines no writable object with static storage duration (nm: b/B/d/D/C)."""
+    res = {"uid": u["uid"], "id": u["id"], "level": "B", "props": u.get("props", "").split(),
+           "status": "UNDECIDED", "why": "", "obligations": 0, "discharged": 0, "failed": [],
+           "solver_s": 0.0, "enforce": "", "replace": [], "cfg": u.get("cfg", ""), "canary": None, "cmds": [],
+           "bound": "static fact checked with gcc + nm on the emitted file (supporting evidence, not a contract proof)"}
+    wdir = os.path.join(scratch.dir, "units", re.sub(r"[^\w.@-]", "_", u["uid"]))
+    os.makedirs(wdir, exist_ok=True)
+    res["wdir"] = wdir
+    em = scratch.emit(u["probe"], probes[u["probe"]], u["cfg"])
+    if em["rc"] != 0:
+        res["why"] = "flex failed on probe"
+        return res
+    obj = os.path.join(wdir, "scanner.o")
+    rc, o, t = run(["gcc", "-c", "-w", "-o", obj, em["path"]], timeout=120, mem=False)
+    res["cmds"].append("gcc -c scanner.c; nm scanner.o")
+    if rc != 0:
+        res["why"] = "gcc failed: " + o[-800:]
+        return res
+    rc, o, t = run(["nm", obj], timeout=60, mem=False)
+    syms = [l.split() for l in o.splitlines() if l.strip()]
+    bad = [x[-1] for x in syms if len(x) >= 2 and x[-2] in ("b", "B", "d", "D", "C")]
+    allowed = set(u.get("allow", "").split())
+    bad = [b for b in bad if b.split(".")[0] not in allowed]
+    res["obligations"] = 1
+    res["info"] = {"origin": "emitted:%s.%s" % (u["probe"], u["cfg"])}
+    res["samples"] = ["nm: writable statics = %s" % (bad or "none")]
+    if bad:
+        res["status"] = "FAILED"
+        res["failed"] = [{"property": "no_mutable_statics", "description": "writable static objects in a reentrant scanner: " + ", ".join(bad),
+                          "obligation": "no_mutable_statics", "location": {}}]
+    else:
+        res["status"] = "PROVED"
+        res["discharged"] = 1
+    return res
+
+
 def run_unit(u, scratch, probes, tier):
+    if u.get("checker") == "nm_no_mutable_statics":
+        return run_static_fact(u, scratch, probes)
     t0 = time.time()
     res = {"uid": u["uid"], "id": u["id"], "level": u.get("level", "P"), "props": u.get("props", "").split(),
            "status": "UNDECIDED", "why": "", "obligations": 0, "discharged": 0, "failed": [],
@@ -556,7 +601,7 @@ def run_unit(u, scratch, probes, tier):
     res["samples"] = [p.get("property", "") + ": " + p.get("description", "") for p in props[:3]]
     if canary_mode == "end":
         res["canary"] = "fails-as-required" if canary_failed else ("passes" if canary_seen else "missing")
-    if info.get("nloops", 0) and loopstep < info["nloops"]:
+    if u.get("loopcontracts", "yes") == "yes" and info.get("nloops", 0) and loopstep < info["nloops"]:
         res["why"] = "loop contract dropped (%d contracts, %d step obligations)" % (info["nloops"], loopstep)
         return res
     if failed:
